@@ -36,7 +36,10 @@ def cases(tier, seed):
     sp = tsspace.space(tier, renumber=("reverse", "rotate"))  # node ids not in time order as well
     out = []
     for a in sp.args:
-        for H in dating.H_menu(a, "thorough", hist=False):
+        Hs = dating.H_menu(a, "thorough", hist=False)
+        if "renumber" in a and tier == "quick":
+            Hs = Hs[:2]  # renumbered variants: no fixed node / the first internal node fixed
+        for H in Hs:
             out.append({"arg": a, "H": H})
     return {
         "cases": out,
